@@ -91,6 +91,7 @@ class Exec(object):
         self.loop_counter = 0
         self.loop_ids = {}
         self.comp_counter = 0
+        self.used_specs = set()    # spec sequences whose nth lemma was used as a hypothesis (the property module must list them in SPECSEQS)
         self.axioms = []           # closure definitions etc. (quantified, pattern-guarded)
         self.module = fi.module
         self.fname = '%s::%s' % (fi.file.split('/')[-1], fi.qualname)
@@ -539,6 +540,7 @@ class ExprMixin(object):
             other = r if isinstance(l, NoneV) else l
             if isinstance(other, NoneV): res = z3.BoolVal(True)
             elif isinstance(other, Opt): res = other.isnone
+            elif isinstance(other, Sc) and other.py == 'val': res = Val.is_VN(other.z)      # dynamically typed scalar: None is one of its cases
             else: res = z3.BoolVal(False)
             return z3.Not(res) if isinstance(op, (ast.IsNot, ast.NotEq)) else res
         if isinstance(op, (ast.In, ast.NotIn)):
@@ -814,7 +816,10 @@ class ExprMixin(object):
     def ev_ListComp(self, n, st):
         if len(n.generators) != 1 or len(n.generators[0].ifs) > 1: raise Unsupported('comprehension shape')
         g = n.generators[0]
-        src = self.deref(self.ev1(g.iter, st), st)
+        if self._is_range_call(g.iter, st) and g.iter.func.id == 'range' and len(g.iter.args) == 1 and not (isinstance(g.iter.args[0], ast.Constant)):
+            src = _RangeSrc(self.ev1(g.iter.args[0], st).z)
+        else:
+            src = self.deref(self.ev1(g.iter, st), st)
         if isinstance(src, (Tup, PyList)):
             if g.ifs: raise Unsupported('filtered comprehension over a concrete list')
             items, s = [], st
@@ -824,7 +829,7 @@ class ExprMixin(object):
                 if len(res) != 1: raise Unsupported('forking comprehension')
                 items.append(res[0][0]); s = res[0][1]
             return [(s.new_cell(PyList(items)), s)]
-        if isinstance(src, SeqV):
+        if isinstance(src, SeqV) or isinstance(src, _RangeSrc):
             if id(n) not in self.loop_ids:
                 self.loop_ids[id(n)] = self.comp_counter; self.comp_counter += 1
             ordinal = self.loop_ids[id(n)]
@@ -834,8 +839,17 @@ class ExprMixin(object):
             ps = [coerce_py(x) for x in params(NS(self, st))]
             # check: element k of the comprehension is the spec's element k, for arbitrary k
             k = fresh(IntS, 'ck')
-            s2 = st.copy(); s2.pc += [k >= 0, k < z3.Length(src.z)]
-            self.bind(g.target, wrap(src.elem, src.z[k]), s2)
+            count = src.hi if isinstance(src, _RangeSrc) else z3.Length(src.z)
+            s2 = st.copy(); s2.pc += [k >= 0, k < count]
+            if isinstance(src, _RangeSrc): self.bind(g.target, Sc(k, 'int'), s2)
+            else:
+                so = getattr(src, 'spec_of', None)
+                if so is not None:
+                    # the source list is itself a comprehension named by a spec sequence with one item per element:
+                    # its k-th item is that spec's k-th element (nth lemma, proved by induction with the speclib obligations)
+                    sp_, ps_, n_ = so
+                    s2.pc += [sp_.nth_instance(ps_, n_, k), z3.Length(src.z) == n_, src.z[k] == sp_.elem(*(list(ps_) + [k]))[0]]
+                self.bind(g.target, wrap(src.elem, src.z[k]), s2)
             cond = None
             if g.ifs:
                 # [e for x in xs if c]: element k contributes [e_k] when c_k holds and nothing otherwise
@@ -849,7 +863,11 @@ class ExprMixin(object):
             got = z3.Unit(self.elem_term(ev_, ety, s3))
             if cond is not None: got = z3.If(cond, got, z3.Empty(spec.result))
             self.obl('comprehension/%d' % ordinal, s3, got == spec.elem(*(ps + [k])), carries=True)
-            return [(st.new_cell(SeqV(spec(*(ps + [z3.Length(src.z)])), ety)), st)]
+            out_v = SeqV(spec(*(ps + [count])), ety)
+            if cond is None and spec.elem_len == 1:
+                out_v.spec_of = (spec, ps, count); self.used_specs.add(spec.name)
+                st.pc.append(z3.Implies(count >= 0, z3.Length(out_v.z) == count))
+            return [(st.new_cell(out_v), st)]
         raise ComprehensionOverSymbolic(n, src)
 
     def ev_Call(self, n, st):
@@ -858,6 +876,10 @@ class ExprMixin(object):
     def ev_Starred(self, n, st):
         raise Unsupported('starred expression outside a call/list')
 
+
+class _RangeSrc(object):
+    """range(hi) as the source of a comprehension"""
+    def __init__(self, hi): self.hi = hi
 
 class _Fork(Exception):
     def __init__(self, res): self.res = res
@@ -1759,6 +1781,9 @@ class CallMixin(object):
         if isinstance(v, PyStr) and ty.kind == 'Text': return lit_doc(v.s)
         if isinstance(v, Sc) and ty.kind == 'Text': return self.text_of(v, st)
         if ty.kind == 'Real' and isinstance(v, Sc): return self.as_real(v)
+        if ty.kind == 'Val':
+            if isinstance(v, NoneV): return Val.VN
+            if isinstance(v, Sc) and v.py != 'val': return to_val(v.z)
         if isinstance(v, Rec): return self.rec_to_obj(v, st).z
         return unwrap(v)
 
@@ -2022,6 +2047,16 @@ class CallMixin(object):
                 self.reg.assume('A4: bisect.bisect_left on the x components (uninterpreted index function characterised by the bisect axioms in the precondition)')
                 return [(Sc(BIS(a.xproxy_of, self.as_real(self.deref(args[1], st))), 'int'), st)]
             raise Unsupported('bisect_left over %r' % (a,))
+        if mod == 'math' and name == 'sqrt':
+            a = self.deref(args[0], st)
+            if not isinstance(a, Sc): raise Unsupported('math.sqrt(%r)' % (a,))
+            x = self.as_real(a)
+            s_neg = st.copy(); s_neg.pc.append(x < 0)
+            self.raise_exc('ValueError', s_neg)                 # math domain error
+            y = sqrt_fn(x)
+            st.pc += [x >= 0, y >= 0, y * y == x]
+            self.reg.assume('math.sqrt(x) for x >= 0 is the non-negative y with y*y == x (exact; its rounding is A1); ValueError for x < 0')
+            return [(Sc(y, 'float'), st)]
         if mod == 'collections' and name == 'namedtuple':
             nm = self.deref(args[0], st); fl = self.deref(args[1], st)
             fields = [self.deref(x, st) for x in self.iter_concrete(args[1], st)]
@@ -2079,6 +2114,7 @@ def py_literal(pv, ty):
     raise Unsupported('literal of type %r' % ty)
 
 split_on = z3.Function('split_on', StrS, StrS, z3.SeqSort(StrS))
+sqrt_fn = z3.Function('sqrt', RealS, RealS)
 split_ws = z3.Function('split_ws', StrS, z3.SeqSort(StrS)); strip_ws = z3.Function('strip_ws', StrS, StrS)
 parses_int = z3.Function('parses_int', StrS, BoolS); parses_float = z3.Function('parses_float', StrS, BoolS)
 str_to_int = z3.Function('str_to_int', StrS, IntS); str_to_real = z3.Function('str_to_real', StrS, RealS)
